@@ -127,7 +127,9 @@ func (node *OuterJoin) Typecheck(ctx context.Context, env physical.Environment, 
 		Schema: physical.Schema{
 			Fields:        outSchemaFields,
 			TimeField:     left.Schema.TimeField,
-			NoRetractions: left.Schema.NoRetractions && right.Schema.NoRetractions,
+			// An outer join retracts the NULL-padded row of a record as soon as its first match arrives,
+			// so its output contains retractions even when its inputs don't.
+			NoRetractions: false,
 		},
 		NodeType: physical.NodeTypeOuterJoin,
 		OuterJoin: &physical.OuterJoin{
